@@ -13,7 +13,12 @@ ENTRY = "cassis.cas.Cas.select_covered / select_covering / _get_feature_structur
 RULE = (
     "quick: every multiset of <=3 spans over offsets 0..3 (types rotated over a 4-type tree, decoys in a second view; random cases also index instances of built-in annotation types queried through built-in supertypes, create subtypes after a first query, index instances of them and query again, remove some of several duplicates of a span before the query, and run on a type system obtained by merge_typesystems with re-parenting "
     "and in an unrelated type) x every query span x query type in {root, leaf}, plus seeded random instances (<=60 "
-    "annotations, clustered and large offsets); thorough: multisets of <=4 spans and random instances up to 2000 "
+    "annotations, clustered and large offsets); 300 cases over random type trees of 3..7 types whose full names come from "
+    "4 packages (one empty: dot-free names) x 3 short names, so that siblings and cousins share short names, queried at "
+    "any declared type or a built-in ancestor, some obtained by merge with re-parenting, some with late subtypes from the "
+    "same name pool; 300 cases whose annotations reach the index through a loader (CAS with document text mixing BMP and "
+    "non-BMP code points written by to_xmi / to_json and read back, queries on the CAS that was read, optionally after "
+    "removes before writing and further add() calls after reading); thorough: multisets of <=4 spans and random instances up to 2000 "
     "annotations. A case is non-trivial when some indexed annotation of the queried subtree is zero-width at an edge "
     "of the query span or equals the query span."
 )
@@ -24,9 +29,13 @@ TRUSTED = [
     "SortedKeyList.bisect_key_left/add modelled by their contract (leading keys below the probe / insort right)",
     "Python tuple comparison of a 3-tuple key with a shorter probe (proper prefix sorts first)",
     "type subtree (names of Type.descendants) is an input of the model here; it is C10's theorem that it is the subtree",
+    "cases read by load_cas_from_xmi / load_cas_from_json: the model takes the members of the view as a sequence of adds with "
+    "their in-memory (code point) offsets, members are recognised by xmi:id = label + 10, and the oracle first confirms that "
+    "the queried view holds exactly the annotations that were written (that the loaders deliver them is C01/C02's subject)",
 ]
 ASSUMPTIONS = ["annotations are well-formed (begin <= end) and the query span has begin <= end",
-               "ties in (begin, end) are ordered by id() in the code: results are compared as label multisets"]
+               "ties in (begin, end) are ordered by id() in the code: results are compared as label multisets",
+               "loaded cases: offsets lie inside the document text (0..len in code points), one sofa string per view"]
 
 TREE = [["t.Root", "uima.tcas.Annotation"], ["t.Mid", "t.Root"], ["t.Leaf", "t.Mid"], ["t.Other", "uima.tcas.Annotation"]]
 BUILTIN_TREE = [["uima.cas.AnnotationBase", "uima.cas.TOP"], ["uima.tcas.Annotation", "uima.cas.AnnotationBase"],
@@ -36,7 +45,7 @@ _TS = {}
 
 def _subtree(sc, root, with_late=True):
     """Names of root and its transitive subtypes, from the scenario alone."""
-    edges = BUILTIN_TREE + TREE + (sc.get("late", {}).get("types", []) if with_late else [])
+    edges = BUILTIN_TREE + sc.get("tree", TREE) + (sc.get("late", {}).get("types", []) if with_late else [])
     out, todo = [], [root]
     while todo:
         n = todo.pop()
@@ -47,18 +56,25 @@ def _subtree(sc, root, with_late=True):
     return out
 
 
-def _ts(cassis, fresh=False, merged=False):
+def _ts(cassis, fresh=False, merged=False, tree=None):
     if merged:
         # the same tree obtained by merge_typesystems: the first input declares t.Mid and t.Leaf directly below
-        # Annotation / t.Root, the second gives them their more specific supertypes (re-parenting in the merge)
+        # Annotation / t.Root, the second gives them their more specific supertypes (re-parenting in the merge);
+        # in general: the first input declares every type below its grandparent where the parent is a declared type
         from cassis import TypeSystem, merge_typesystems
         a, b = TypeSystem(), TypeSystem()
-        for name, parent in [["t.Root", "uima.tcas.Annotation"], ["t.Mid", "uima.tcas.Annotation"], ["t.Leaf", "t.Root"],
-                             ["t.Other", "uima.tcas.Annotation"]]:
-            a.create_type(name, parent)
-        for name, parent in TREE:
+        parent_of = dict((n, p) for n, p in (tree or TREE))
+        for name, parent in (tree or TREE):
+            a.create_type(name, parent_of.get(parent, parent))
+        for name, parent in (tree or TREE):
             b.create_type(name, parent)
         return merge_typesystems(a, b)
+    if tree is not None:
+        from cassis import TypeSystem
+        ts = TypeSystem()
+        for name, parent in tree:
+            ts.create_type(name, parent)
+        return ts
     if fresh or "ts" not in _TS:
         from cassis import TypeSystem
         ts = TypeSystem()
@@ -154,20 +170,136 @@ def generate(rng, tier):
                 a = rng.choice(own)
                 sc["q"]["b"], sc["q"]["e"], sc["q"]["probe"] = a["b"], a["e"], a["l"]
         yield sc
+    # two further families, generated after everything above so that the cases above stay what they were
+    for r in range({"quick": 300, "thorough": 2000, "search": 1500}[tier]):
+        yield _gen_tree_case(rng, r)
+    for r in range({"quick": 300, "thorough": 2000, "search": 1500}[tier]):
+        yield _gen_load_case(rng, r)
+
+
+ANNOTATION = "uima.tcas.Annotation"
+NAME_POOL = [(p + "." + s) if p else s for p in ["lex", "morph", "lex.sub", ""] for s in ["Tok", "Span", "X"]]
+# code points of 1 and of 2 UTF-16 units
+CHARS_BMP, CHARS_ASTRAL = ["a", " ", "\u00e9", "\u4e2d"], ["\U0001F600", "\U00010348", "\U0001F9D1"]
+
+
+def _short(name):
+    return name.rsplit(".", 1)[-1]
+
+
+def _shared_short_siblings(sc):
+    seen = set()
+    for t, p in sc.get("tree", []) + sc.get("late", {}).get("types", []):
+        if (_short(t), p) in seen:
+            return True
+        seen.add((_short(t), p))
+    return False
+
+
+def _gen_adds(rng, n, hi, types, first_label=1):
+    adds = []
+    for j in range(n):
+        b = rng.randint(0, hi)
+        e = b if rng.random() < 0.3 else rng.randint(b, hi)
+        adds.append({"l": first_label + j, "t": rng.choice(types), "v": rng.choice([0, 0, 0, 1]), "b": b, "e": e})
+    return adds
+
+
+def _gen_query(rng, adds, hi, types):
+    if adds and rng.random() < 0.6:
+        a = rng.choice(adds)
+        qb, qe = a["b"], a["e"]
+        if rng.random() < 0.5 and qe > qb:
+            qb = rng.randint(qb, qe)
+    else:
+        qb = rng.randint(0, hi)
+        qe = rng.randint(qb, hi)
+    return {"t": rng.choice(types), "v": rng.choice([0, 0, 1]), "b": qb, "e": qe, "form": rng.choice(["type", "name"])}
+
+
+def _gen_tree_case(rng, r):
+    """Type subtrees of arbitrary shape: full names from a small pool of packages x short names (several types share a
+    short name, often below one supertype; one package is empty, i.e. dot-free names), 3..7 types, any declared type or
+    a built-in ancestor as the query type; optionally obtained by merge with re-parenting, optionally late subtypes."""
+    pool = rng.sample(NAME_POOL, len(NAME_POOL))
+    n = rng.randint(3, 7)
+    tree = []
+    for name in pool[:n]:
+        same_short = [p for t, p in tree if _short(t) == _short(name)]
+        if same_short and rng.random() < 0.6:
+            parent = rng.choice(same_short)
+        else:
+            parent = rng.choice([ANNOTATION] + [t for t, _p in tree])
+        tree.append([name, parent])
+    types = [t for t, _p in tree]
+    hi = rng.choice([3, 4, 8, 30])
+    adds = _gen_adds(rng, rng.randint(0, 25), hi, types + ([ANNOTATION] if rng.random() < 0.3 else []))
+    sc = {"tree": tree, "adds": adds, "q": _gen_query(rng, adds, hi, types + [ANNOTATION, ANNOTATION, "uima.cas.AnnotationBase"])}
+    if r % 5 == 0:
+        sc["merged_ts"] = True
+    elif r % 5 in (1, 2):
+        # late subtypes whose names come from the same pool (so they may share the short name of an older sibling)
+        q = sc["q"]
+        late_types = []
+        for name in pool[n:n + rng.randint(1, 2)]:
+            below = [t for t in _subtree(sc, q["t"], with_late=False) if t != "uima.cas.AnnotationBase"]  # need begin/end
+            late_types.append([name, rng.choice(below[:8] + [t for t, _p in late_types])])
+        late_adds = []
+        for j in range(rng.randint(1, 4)):
+            b = rng.randint(max(0, q["b"] - 1), q["e"])
+            e = b if rng.random() < 0.3 else rng.randint(b, q["e"] + 1)
+            late_adds.append({"l": 5000 + j, "t": rng.choice([t for t, _p in late_types]), "v": q["v"], "b": b, "e": e})
+        sc["late"] = {"types": late_types, "adds": late_adds}
+    if rng.random() < 0.2:
+        sc["between"] = [rng.choice(["to_xmi", "to_json", "typecheck", "select_all"]) + rng.choice(["@root", "@view"])]
+    return sc
+
+
+def _gen_load_case(rng, r):
+    """The annotations reach the index of the view through a loader: a CAS with document text (code points inside and
+    outside the BMP, so serialised UTF-16 offsets differ from the offsets in memory) is built with add(), written with
+    to_xmi / to_json and read back; the queries run on the CAS that was read, optionally after further add() calls."""
+    hi = rng.choice([3, 4, 8, 30])
+    texts = []
+    for _v in range(2):
+        p_astral = rng.choice([0.0, 0.3, 0.6, 1.0])
+        texts.append("".join(rng.choice(CHARS_ASTRAL if rng.random() < p_astral else CHARS_BMP)
+                             for _ in range(hi + rng.randint(0, 2))))
+    types = [t for t, _p in TREE]
+    adds = _gen_adds(rng, rng.randint(0, 30), hi, types + [ANNOTATION])
+    sc = {"adds": adds, "load": {"fmt": ["xmi", "xmi", "json"][r % 3], "text": texts},
+          "q": _gen_query(rng, adds, hi, types + [ANNOTATION])}
+    if adds and rng.random() < 0.25:
+        sc["removes"] = rng.sample([a["l"] for a in adds], min(len(adds), rng.randint(1, 3)))
+    if rng.random() < 0.3:
+        sc["post_adds"] = _gen_adds(rng, rng.randint(1, 4), hi, types, first_label=8000)
+    if rng.random() < 0.25:
+        own = [a for a in _all_adds(sc) if a["v"] == sc["q"]["v"]]
+        if own:
+            a = rng.choice(own)
+            sc["q"]["b"], sc["q"]["e"], sc["q"]["probe"] = a["b"], a["e"], a["l"]
+    return sc
+
+
+ID_BASE = 10  # xmi:id of the annotation labelled l is l + ID_BASE (the two sofas take the ids 1 and 2)
 
 
 def run_impl(cassis, sc):
     from cassis import Cas
     late = sc.get("late")
-    ts = _ts(cassis, fresh=bool(late), merged=bool(sc.get("merged_ts")))
+    load = sc.get("load")
+    ts = _ts(cassis, fresh=bool(late), merged=bool(sc.get("merged_ts")), tree=sc.get("tree"))
     cas = Cas(typesystem=ts)
     views = [cas, cas.create_view("v2")]
+    if load:
+        for v, text in zip(views, load["text"]):
+            v.sofa_string = text
     lab = {}
 
     def add_all(adds):
         for a in adds:
             T = ts.get_type(a["t"])
-            fs = T(begin=a["b"], end=a["e"])
+            fs = T(begin=a["b"], end=a["e"], xmiID=a["l"] + ID_BASE) if load else T(begin=a["b"], end=a["e"])
             views[a["v"]].add(fs)
             lab[id(fs)] = (a["l"], fs)
 
@@ -177,9 +309,9 @@ def run_impl(cassis, sc):
     q = sc["q"]
     Ann = ts.get_type("uima.tcas.Annotation")
     free_probe = Ann(begin=q["b"], end=q["e"])
-    view = views[q["v"]]
 
     def query():
+        view = views[q["v"]]
         targ = ts.get_type(q["t"]) if q["form"] == "type" else q["t"]
         probe = free_probe
         if q.get("probe") is not None:
@@ -193,12 +325,27 @@ def run_impl(cassis, sc):
         views[[a["v"] for a in sc["adds"] if a["l"] == l][0]].remove(fs)
     for op in sc.get("between", []):
         name, where = op.split("@")
-        h = cas if where == "root" else view
+        h = cas if where == "root" else views[q["v"]]
         if name == "select_all":
             h.select_all()
         else:
             getattr(h, name)()
     obs = {}
+    if load:
+        # from here on the CAS under observation is the one a loader built; its members are recognised by xmi:id
+        if load["fmt"] == "xmi":
+            loaded = cassis.load_cas_from_xmi(cas.to_xmi(), typesystem=ts)
+        else:
+            loaded = cassis.load_cas_from_json(cas.to_json(), typesystem=ts)
+        views = [loaded.get_view("_InitialView"), loaded.get_view("v2")]
+        keep, lab = lab, {}
+        for v in views:
+            for fs in v.select_all():
+                if fs.xmiID is not None and fs.xmiID > ID_BASE:
+                    lab[id(fs)] = (fs.xmiID - ID_BASE, fs)
+        add_all(sc.get("post_adds", []))
+        obs["indexed"] = sorted([l, fs.type.name, fs.begin, fs.end] for (l, fs) in lab.values()
+                                if any(fs is x for x in views[q["v"]].select_all()))
     if late:
         c0, g0 = query()
         obs["pre_covered"], obs["pre_covering"] = sorted(labels(c0)), sorted(labels(g0))
@@ -213,7 +360,8 @@ def run_impl(cassis, sc):
 
 def _all_adds(sc, with_late=True):
     gone = set(sc.get("removes", []))
-    return [a for a in sc["adds"] if a["l"] not in gone] + (sc.get("late", {}).get("adds", []) if with_late else [])
+    return ([a for a in sc["adds"] if a["l"] not in gone] + sc.get("post_adds", [])
+            + (sc.get("late", {}).get("adds", []) if with_late else []))
 
 
 def _expected(sc, rel, with_late=True):
@@ -231,6 +379,12 @@ def _expected(sc, rel, with_late=True):
 
 
 def oracle(cassis, sc, obs):
+    if "load" in sc:
+        # what the statement presupposes: the annotations of the scenario are what the queried view holds after loading
+        exp = sorted([a["l"], a["t"], a["b"], a["e"]] for a in _all_adds(sc) if a["v"] == sc["q"]["v"])
+        if obs["indexed"] != exp:
+            return (f"loaded view: it does not hold the annotations that were written (expected {exp[:10]} "
+                    f"got {obs['indexed'][:10]}); the queries were not judged")
     if "late" in sc:
         for rel in ("covered", "covering"):
             exp = _expected(sc, rel, with_late=False)
@@ -310,6 +464,12 @@ def distribution(scenarios, observations):
             "with_removes": sum(1 for s in scenarios if s.get("removes")),
             "with_operations_between": sum(1 for s in scenarios if s.get("between")),
             "query_span_is_indexed_annotation": sum(1 for s in scenarios if s["q"].get("probe") is not None),
+            "random_type_tree": sum(1 for s in scenarios if "tree" in s),
+            "siblings_sharing_a_short_name": sum(1 for s in scenarios if "tree" in s and _shared_short_siblings(s)),
+            "dot_free_type_names": sum(1 for s in scenarios if any("." not in t for t, _p in s.get("tree", []))),
+            "read_back_from_xmi": sum(1 for s in scenarios if s.get("load", {}).get("fmt") == "xmi"),
+            "read_back_from_json": sum(1 for s in scenarios if s.get("load", {}).get("fmt") == "json"),
+            "read_back_with_non_bmp_text": sum(1 for s in scenarios if "load" in s and any(ord(c) > 0xFFFF for c in s["load"]["text"][s["q"]["v"]])),
             "type_system_obtained_by_merge": sum(1 for s in scenarios if s.get("merged_ts")),
             "builtin_typed_instances": sum(1 for s in scenarios if any(a["t"].startswith("uima.") for a in s["adds"])),
             "nonempty_covered": sum(1 for o in observations if o and o["covered"]),
